@@ -814,6 +814,10 @@ func fieldClass(f *rField, view any) string {
 func filterKind(f *rFilter) string {
 	fk := "type"
 	switch {
+	case f.HasEnum && f.Pattern != nil:
+		fk = "enum+pattern"
+	case f.HasEnum && f.Const != nil:
+		fk = "enum+const"
 	case f.HasEnum:
 		fk = "enum"
 	case f.Const != nil && f.Pattern != nil:
@@ -1096,11 +1100,14 @@ func extractionClass(f *rField, fr fieldResult) string {
 		return "optional-absent"
 	}
 	cls := "value"
-	if f.Filter != nil && f.Filter.Pattern != nil && !f.Filter.HasEnum {
+	if f.Filter != nil && f.Filter.Pattern != nil {
 		if compile(*f.Filter.Pattern).NumSubexp() == 1 {
 			cls = "pattern-with-capture-group"
 		} else {
 			cls = "pattern-without-capture-group"
+		}
+		if f.Filter.HasEnum {
+			cls = "enum+" + cls
 		}
 	}
 	if _, isArr := fr.value.([]any); isArr {
